@@ -46,6 +46,8 @@ type c09bTracer struct {
 	items  int
 	opens  int
 	closes int
+	// positions settled by the liquidation list and closed by the stop-loss / take-profit list of the SAME message
+	resettled int
 }
 
 func (c *c09bTracer) denoms() [2]string { return [2]string{USDC, c.trade} }
@@ -347,6 +349,12 @@ func (c *c09bTracer) step(ops []BankOp, kind string, res TxResult) {
 			}
 			pay, take, ftake := sdkmath.ZeroInt(), sdkmath.ZeroInt(), sdkmath.ZeroInt()
 			cc := b.Custody
+			if !settle && (c09bAttrInt(*ev, "borrow_interest_paid_custody").GT(b.BorrowInterestPaidCustody) || (ret.IsPositive() && !ret.Add(rp).Equal(b.Custody))) {
+				// the same message ALSO named the position in its liquidation list: interest and funding were settled there (it was healthy and
+				// stayed open), the stop-loss / take-profit item closed what was left. One item: settlement, then Repay.
+				settle = true
+				c.resettled++
+			}
 			if settle {
 				pay = c09bAttrInt(*ev, "borrow_interest_paid_custody").Sub(b.BorrowInterestPaidCustody)
 				take = pay.ToLegacyDec().Mul(pct).TruncateInt()
@@ -651,7 +659,8 @@ const c09bCoqFooter = "Definition M := Eval vm_compute in (mismatches (map fst c
 func (c *c09bTracer) finish(col *Collector) {
 	col.mu.Lock()
 	defer col.mu.Unlock()
-	for k, v := range map[string]int{"backing_close_positions_items": c.items, "backing_items_aborted_after_transfer": c.aborts, "backing_opens": c.opens, "backing_user_closes": c.closes} {
+	for k, v := range map[string]int{"backing_close_positions_items": c.items, "backing_items_aborted_after_transfer": c.aborts, "backing_opens": c.opens, "backing_user_closes": c.closes,
+		"backing_items_settled_then_closed_by_another_list": c.resettled} {
 		n, _ := col.rep.Extra[k].(int)
 		col.rep.Extra[k] = n + v
 	}
